@@ -375,7 +375,11 @@ func interp(toks []string) string {
 		// Unmarshal from a caller-owned buffer, then overwrite the buffer (C20):
 		// pattern 0 = all 0x00, 1 = all 0xff, 2 = pseudo-random
 		buf := unhex(toks[1])
+		orig := append([]byte{}, buf...)
 		err := s.St.Unmarshal(buf)
+		if !bytes.Equal(orig, buf) {
+			return "INPUT-BUFFER-MODIFIED" // Unmarshal must not write to the caller's buffer
+		}
 		scribble(buf, toks[2])
 		return ErrKind(err)
 	case "trie.marshal-scribble":
